@@ -202,6 +202,13 @@ pub fn check(v: &View) -> Vec<Violation> {
             if let Some(t0) = cen.t0() {
                 if t0 < v.phase_seq(Phase::ClientsDone) && v.out.outcome.cap_phase == 0 && !cen.lib_temporaries_possible && !cen.maybe_at(t0) {
                     crate::log::probe("c10_last_drop_with_timer");
+                    // promptly, on the ideal clock: an idle actor notices the last drop in the same instant
+                    if ideal && !v.busy_at(a, t0) {
+                        let t0_vt = v.vtime_at(t0);
+                        if a.dead.is_none() || a.dead_vt > t0_vt {
+                            out.push(violation(P, "timer-kept-actor-alive", "lingered", format!("actor {aidx}: idle when its last strong handle went away at seq {t0} (t={t0_vt}) with timers registered, but it only terminated at t={} (dead {:?})", a.dead_vt, a.dead)));
+                        }
+                    }
                     let hd = v.phase_seq(Phase::HandlesDropped);
                     if a.dead.is_none_or(|d| d > hd) && !v.busy_at(a, hd) {
                         out.push(violation(P, "timer-kept-actor-alive", "", format!("actor {aidx}: last strong handle gone at seq {t0}, timers registered, but the actor was still running when the epilogue began")));
